@@ -1,0 +1,49 @@
+//go:build verif && unix && !solaris
+
+// Verification hook for the listener bookkeeping (build tag `verif` only; add-only,
+// read-only: no behaviour of any build depends on this file).
+
+package caddy
+
+import (
+	"fmt"
+	"sync/atomic"
+)
+
+// VerifListenerState is a point-in-time copy of the two tables that decide whether a
+// listener address stays bound across config reloads.
+type VerifListenerState struct {
+	// Pool: usage count of every key of listenerPool (key = network + "/" + address).
+	Pool map[string]int
+	// Unix: for every key of unixSockets the shared holder counter of that socket
+	// (the number of not-yet-closed unixListener/unixConn wrappers sharing the fd).
+	Unix map[string]int
+}
+
+// VerifListenerSnapshot copies listenerPool's reference counts and the unixSockets
+// table. It takes unixSocketsMu and the pool's read lock (in that order, one after
+// the other, never nested) and calls nothing else.
+func VerifListenerSnapshot() VerifListenerState {
+	st := VerifListenerState{Pool: map[string]int{}, Unix: map[string]int{}}
+
+	unixSocketsMu.Lock()
+	for k, v := range unixSockets {
+		switch s := v.(type) {
+		case *unixListener:
+			st.Unix[k] = int(atomic.LoadInt32(s.count))
+		case *unixConn:
+			st.Unix[k] = int(atomic.LoadInt32(s.count))
+		default:
+			st.Unix[k] = -1
+		}
+	}
+	unixSocketsMu.Unlock()
+
+	listenerPool.RLock()
+	for k, upv := range listenerPool.pool {
+		st.Pool[fmt.Sprint(k)] = int(atomic.LoadInt32(&upv.refs))
+	}
+	listenerPool.RUnlock()
+
+	return st
+}
